@@ -560,6 +560,18 @@ func explore(start ssa.Instruction, inclusive bool, stop func(ssa.Instruction) b
 		if !ok {
 			return false, false
 		}
+		// a function with defers returns through a spill cell: `*t0 = err; rundefers; t = *t0; return t`
+		if ld, isL := isLoad(r); isL {
+			if _, isAl := ld.X.(*ssa.Alloc); isAl {
+				blk := ld.Block()
+				for j := indexIn(ld) - 1; j >= 0; j-- {
+					if st, isSt := blk.Instrs[j].(*ssa.Store); isSt && st.Addr == ld.X {
+						r = st.Val
+						break
+					}
+				}
+			}
+		}
 		switch {
 		case isNilConst(r):
 			return bo.Op == token.EQL, true
